@@ -71,6 +71,18 @@ def gen_case(rng):
         letters = [c.lower() for c in letters]
     elif cm < 0.4:
         letters = [c.lower() if rng.random() < 0.5 else c for c in letters]
+    if premise == 2 and rng.random() < 0.25 and n >= 3 and len(letters) >= 4 * n:
+        # all protein-only letters in one record, the others made of the remaining letters; the rich record at a random place (often last)
+        rich = [c for c in letters if c.upper() in PROT_ONLY]
+        rest = [c for c in letters if c.upper() not in PROT_ONLY]
+        if rest and len(rest) >= n - 1:
+            cuts = sorted(rng.sample(range(1, len(rest)), n - 2)) if len(rest) > n - 1 and n > 2 else []
+            others = ["".join(rest[a:b]) for a, b in zip([0] + cuts, cuts + [len(rest)])]
+            others = [o for o in others if o]
+            k = rng.choice([len(others), len(others), rng.randint(0, len(others))])
+            seqs = others[:k] + ["".join(rich)] + others[k:]
+            info["concentrated"] = True
+            return expect, seqs, info
     # cut into n non-empty sequences
     cuts = sorted(rng.sample(range(1, len(letters)), n - 1)) if len(letters) > n else list(range(1, n))
     seqs = ["".join(letters[a:b]) for a, b in zip([0] + cuts, cuts + [len(letters)])]
@@ -94,6 +106,12 @@ def run_case(ck, paths, idx):
         short = [n[:20] for n in names]
         if len(set(short)) == len(short) and rng.random() < 0.5:
             presentations.append(("clustal_padded", fmt.write_clustal(list(zip(names, [r.replace(".", "-") for r in rows])), pad=rng.choice([None, 40]))))
+    # MSF presentation whose header declares the wrong molecule type: the residues decide, not the label
+    short = [n_[:30] for n_ in names]
+    if len(set(short)) == len(short) and sum(len(x) for x in seqs) < 60000 and rng.random() < 0.4:
+        w = max(len(x) for x in seqs)
+        mrows = [(n_, x.ljust(w, "-")) for n_, x in zip(names, seqs)]
+        presentations.append(("msf_with_wrong_type_label", fmt.write_msf(mrows, protein=(expect != BT_PROT))))
     # permuted + renamed copy
     perm = list(recs)
     rng.shuffle(perm)
@@ -122,8 +140,8 @@ def run_case(ck, paths, idx):
         if info["premise"] == 2:
             if ufrac >= 0.16:
                 return "premise2:classified-nucleotide:U-fraction>=16%"
-            return "premise2:classified-nucleotide:%s" % ("gapped" if "gap" in where or "clustal" in where else where.split("_rate")[0])
-        return "premise1:classified-protein:%s" % ("gapped" if "gap" in where or "clustal" in where else where.split("_rate")[0])
+            return "premise2:classified-nucleotide:%s" % ("gapped" if "gap" in where or "clustal" in where or "msf" in where else where.split("_rate")[0])
+        return "premise1:classified-protein:%s" % ("gapped" if "gap" in where or "clustal" in where or "msf" in where else where.split("_rate")[0])
 
     for where, x in obs:
         ck.count("observations")
